@@ -135,6 +135,25 @@ impl Barrier {
     }
 }
 
+#[cfg(all(smol_rs_async_lock_verif, feature = "std"))]
+impl Barrier {
+    /// Verification hook: `(count, generation_id, mutex state, mutex
+    /// listeners, event listeners)`. Reads the counters without locking; only
+    /// meaningful while no other thread is inside a poll.
+    pub fn verif_state(&self) -> (usize, u64, usize, usize, usize) {
+        // SAFETY (hook): single-threaded harness, nobody holds the guard.
+        let st = unsafe { &*self.state.verif_peek() };
+        let (m, ml) = self.state.verif_state();
+        (
+            st.count,
+            st.generation_id,
+            m,
+            ml,
+            self.event.total_listeners(),
+        )
+    }
+}
+
 easy_wrapper! {
     /// The future returned by [`Barrier::wait()`].
     pub struct BarrierWait<'a>(BarrierWaitInner<'a> => BarrierWaitResult);
